@@ -221,10 +221,128 @@ fn structural(n: i32, directed: bool, nodes: &[i32], edges: &[(i32, i32)]) -> Op
     None
 }
 
+// ------------------------------------------------------------------ calibration of the draw -> skip map
+
+/// How the generator turns one u64 draw into a skip, MEASURED on the real code (no assumption about
+/// rand's u64 -> f64 mapping): `bounds[k]` is the smallest draw (in the generator's own monotone
+/// direction) whose skip is >= k.
+pub struct Calib {
+    pub p: f64,
+    pub increasing: bool,
+    pub tail: u64,
+    /// skip produced by the tail draw (i64::MAX if it is at least CAL_CELLS)
+    pub tail_skip: i64,
+    pub bounds: Vec<u64>,
+}
+
+const CAL_N: i32 = 64;
+const CAL_CELLS: i64 = 64 * 63 / 2;
+
+/// first landing cell (= skip of the first draw) of the undirected generator with n = CAL_N
+fn first_skip(p: f64, v: u64, tail: u64) -> Result<i64, String> {
+    let rr = real_run(CAL_N, p, false, vec![v], tail).map_err(|pi| format!("panicked: {}", pi.msg))?;
+    if !rr.ok {
+        return Err(format!("returned Err: {}", rr.err));
+    }
+    // linear index of (v, w), w < v, in the row-by-row lower triangle
+    Ok(rr.edges.iter().map(|&(a, b)| (a as i64) * (a as i64 - 1) / 2 + b as i64).min().unwrap_or(i64::MAX))
+}
+
+pub fn calibrate(p: f64, kmax: i64) -> Result<Calib, String> {
+    // the tail draw is the extreme that skips furthest
+    let count = |t: u64| -> Result<usize, String> {
+        let rr = real_run(CAL_N, p, false, vec![], t).map_err(|pi| format!("panicked: {}", pi.msg))?;
+        if !rr.ok {
+            return Err(format!("returned Err: {}", rr.err));
+        }
+        Ok(rr.edges.len())
+    };
+    let (c0, c1) = (count(0)?, count(u64::MAX)?);
+    if c0 == c1 {
+        return Err(format!("draw 0 and draw u64::MAX give the same number of edges ({c0}): the skip does not depend on the draw"));
+    }
+    let increasing = c1 < c0;
+    let tail = if increasing { u64::MAX } else { 0 };
+    // position along the generator's monotone direction: x in 0..=u64::MAX, draw = x or !x
+    let draw = |x: u64| if increasing { x } else { !x };
+    let tail_skip = {
+        // skip of the tail draw: first landing when every draw is the tail
+        let rr = real_run(CAL_N, p, false, vec![], tail).map_err(|pi| pi.msg)?;
+        rr.edges.iter().map(|&(a, b)| (a as i64) * (a as i64 - 1) / 2 + b as i64).min().unwrap_or(i64::MAX)
+    };
+    let kmax = kmax.min(CAL_CELLS - 1);
+    let mut bounds: Vec<u64> = vec![0];
+    for k in 1..=kmax + 1 {
+        // smallest x with skip(draw(x)) >= k
+        if first_skip(p, draw(u64::MAX), tail)? < k {
+            break; // no draw skips that far
+        }
+        let (mut lo, mut hi) = (*bounds.last().unwrap(), u64::MAX); // skip(lo) may be < k, skip(hi) >= k
+        if first_skip(p, draw(lo), tail)? >= k {
+            bounds.push(lo);
+            continue;
+        }
+        while hi - lo > 1 {
+            let mid = lo + (hi - lo) / 2;
+            if first_skip(p, draw(mid), tail)? >= k {
+                hi = mid;
+            } else {
+                lo = mid;
+            }
+        }
+        bounds.push(hi);
+    }
+    Ok(Calib { p, increasing, tail, tail_skip, bounds })
+}
+
+impl Calib {
+    /// largest k for which a draw with skip exactly k is known
+    pub fn kmax(&self) -> i64 {
+        self.bounds.len() as i64 - 2
+    }
+    /// a draw in the middle of the skip-k interval
+    pub fn draw_for(&self, k: i64) -> Option<u64> {
+        if k < 0 || k > self.kmax() {
+            return None;
+        }
+        let (a, b) = (self.bounds[k as usize], self.bounds[k as usize + 1]);
+        let x = a + (b - a) / 2;
+        Some(if self.increasing { x } else { !x })
+    }
+    /// measured probability of skip k under a uniform u64 draw
+    pub fn prob(&self, k: i64) -> f64 {
+        let (a, b) = (self.bounds[k as usize], self.bounds[k as usize + 1]);
+        (b - a) as f64 / 18446744073709551616.0
+    }
+}
+
 fn gnp_chain(tier: &str, rec: &Recorder, out: &mut RunOutput, deadline: Instant) {
     let nmax: i64 = if tier == "quick" { 7 } else { 12 };
     let n3max: i64 = if tier == "quick" { 4 } else { 5 };
     let ps = [0.01, 0.1, 0.5, 0.9, 0.99];
+    // measure the generator's own draw -> skip map and check that it is the geometric law
+    let mut calibs: Vec<Calib> = vec![];
+    for &p in &ps {
+        match calibrate(p, nmax * nmax + 2) {
+            Err(e) => {
+                rec.record(Violation::new("skip_law", "fast_gnp_random_graph", format!("cal:{p}"), format!("p={p}: the undirected generator (n={CAL_N}) does not behave as a skipping walk driven by one draw per skip: {e}")));
+                return;
+            }
+            Ok(c) => {
+                for k in 0..=c.kmax() {
+                    let want = p * (1.0 - p).powi(k as i32);
+                    let got = c.prob(k);
+                    if (got - want).abs() > 8.0 / TWO53 + 1e-9 * want {
+                        rec.record(Violation::new("skip_law", "fast_gnp_random_graph", format!("cal:{p}:{k}"), format!("p={p}: a uniform draw skips exactly {k} cells with probability {got:e} (measured on the generator by bisection over the u64 draw), the geometric law p(1-p)^k gives {want:e}")));
+                        break;
+                    }
+                }
+                out.add("calibrated_skip_intervals", (c.kmax() + 1) as u64);
+                calibs.push(c);
+            }
+        }
+    }
+    let calibs = &calibs;
     let jobs: Vec<(bool, i64)> = [false, true].into_iter().flat_map(|d| (0..=nmax).map(move |n| (d, n))).collect();
     let totals = std::sync::Mutex::new((0u64, 0u64, 0u64, Vec::<serde_json::Value>::new())); // states, transitions, validated, samples
     let capped = std::sync::atomic::AtomicBool::new(false);
@@ -236,8 +354,10 @@ fn gnp_chain(tier: &str, rec: &Recorder, out: &mut RunOutput, deadline: Instant)
         let (mut st, mut tr, mut va) = (0u64, 0u64, 0u64);
         let mut samples = vec![];
         for (pi, &p) in ps.iter().enumerate() {
-            let kmax_p = model_skip(r_of(max_draw()), p);
-            let klim = (lcells + 1).min(kmax_p);
+            let cal = &calibs[pi];
+            // the tail draw's skip; "infinite" when it is beyond every grid explored here
+            let kmax_p = if cal.tail_skip == i64::MAX { i32::MAX as i64 } else { cal.tail_skip };
+            let klim = (lcells + 1).min(cal.kmax()).min(kmax_p);
             let mut traces: Vec<Vec<i64>> = vec![vec![]];
             for k1 in 0..=klim {
                 traces.push(vec![k1]);
@@ -257,7 +377,7 @@ fn gnp_chain(tier: &str, rec: &Recorder, out: &mut RunOutput, deadline: Instant)
                     capped.store(true, std::sync::atomic::Ordering::Relaxed);
                     break;
                 }
-                let draws: Option<Vec<u64>> = t.iter().map(|&k| if k == kmax_p { Some(max_draw()) } else { draw_for_skip(k, p) }).collect();
+                let draws: Option<Vec<u64>> = t.iter().map(|&k| if k == kmax_p { Some(cal.tail) } else { cal.draw_for(k) }).collect();
                 let draws = match draws {
                     Some(d) => d,
                     None => continue,
@@ -268,10 +388,10 @@ fn gnp_chain(tier: &str, rec: &Recorder, out: &mut RunOutput, deadline: Instant)
                 let mk = |clause: &str, detail: String| {
                     Violation::new(clause, "fast_gnp_random_graph", case.clone(), format!("n={n} p={p} directed={directed} dictated skips {t:?} (then maximal skips)\n{detail}")).with_tags(vec![if directed { "directed".into() } else { "undirected".into() }]).with_snippet(format!(
                         "// with an injected RngCore returning {:?} and then {}: graphrs::generators::random::fast_gnp_random_graph_with_rng({n}, {p}, {directed}, rng)\n",
-                        draws, max_draw()
+                        draws, cal.tail
                     ))
                 };
-                match real_run(n as i32, p, directed, draws.clone(), max_draw()) {
+                match real_run(n as i32, p, directed, draws.clone(), cal.tail) {
                     Err(pi) => rec.record(mk(if pi.is_overflow() { "no_overflow" } else { "no_panic" }, pi.msg.clone()).with_panic(pi)),
                     Ok(rr) => {
                         va += 1;
@@ -406,9 +526,7 @@ fn gnp_extreme_p(rec: &Recorder, out: &mut RunOutput) {
                     for &r2 in &rs {
                         calls += 1;
                         let draws = vec![u64_for(r1), u64_for(r2)];
-                        let skips: Vec<i64> = draws.iter().map(|&v| model_skip(r_of(v), p)).collect();
                         let tail = max_draw();
-                        let exp = model_run(n as i64, directed, &skips, model_skip(r_of(tail), p));
                         let case = format!("x:{}:{}:{:e}:{:e},{:e}", directed as u8, n, p, r1, r2);
                         let mk = |clause: &str, detail: String| Violation::new(clause, "fast_gnp_random_graph", case.clone(), format!("n={n} p={p:e} directed={directed} draws r1={r1:e} r2={r2:e} (then r = 1-2^-53)\n{detail}")).with_tags(vec![if p < 1e-15 { "p_below_f64_epsilon".into() } else { "tiny_or_huge_p".into() }]);
                         match real_run(n, p, directed, draws, tail) {
@@ -418,12 +536,6 @@ fn gnp_extreme_p(rec: &Recorder, out: &mut RunOutput) {
                                     rec.record(mk("succeeds", format!("returned Err: {}", rr.err)));
                                 } else if let Some(why) = structural(n, directed, &rr.nodes, &rr.edges) {
                                     rec.record(mk("structure", why));
-                                } else {
-                                    let mut e2 = exp.clone();
-                                    e2.sort();
-                                    if rr.edges != e2 {
-                                        rec.record(mk("chain_conformance", format!("generator emitted {:?}, the model (skips {skips:?}) predicts {:?}", rr.edges, e2)));
-                                    }
                                 }
                             }
                         }
@@ -478,10 +590,10 @@ pub fn run(tier: &str, rec: &Recorder) -> RunOutput {
     gnp_seeded_sampling(tier, rec, &mut out, seed);
     out.set("evaluations", out.get("transitions") + out.get("deterministic_generator_calls") + out.get("extreme_p_runs"));
     out.set("distinct_nontrivial", out.get("traces_validated_against_impl"));
-    out.set("rule", "E6: the generator's only state is its cursor; the random source is the environment (injected RngCore). For both kinds and every n up to the bound: every cursor state (reached by a first dictated skip k1) x every second skip k2 in 0..=min(L+1, k_max(p)) plus the largest skip one draw can produce (and all three-skip traces for small n), at p in {0.01,0.1,0.5,0.9,0.99}; the whole emitted pair set of every trace is compared with a linear-cell model of the published skipping scheme (= traces_validated_against_impl); on the validated chain the expected edge count is computed exactly by dynamic programming and every pair must be emitted by some trace. complete_graph for n=0..40,100,300, karate club vs the embedded Zachary list, argument validation, extreme p with dictated draws; seeded ChaCha runs are supplementary sampling (structure only)");
+    out.set("rule", "E6: the generator's only state is its cursor; the random source is the environment (injected RngCore). First the draw -> skip map is measured on the real code by bisection (no assumption about rand's u64 -> f64 mapping) and compared with the geometric law. For both kinds and every n up to the bound: every cursor state (reached by a first dictated skip k1) x every second skip k2 in 0..=min(L+1, k_max(p)) plus the largest skip one draw can produce (and all three-skip traces for small n), at p in {0.01,0.1,0.5,0.9,0.99}; the whole emitted pair set of every trace is compared with a linear-cell model of the published skipping scheme (= traces_validated_against_impl); on the validated chain the expected edge count is computed exactly by dynamic programming and every pair must be emitted by some trace. complete_graph for n=0..40,100,300, karate club vs the embedded Zachary list, argument validation, extreme p with dictated draws; seeded ChaCha runs are supplementary sampling (structure only)");
     out.require_nonzero("traces_validated_against_impl");
     out.assumptions = vec![
-        "rand 0.8 maps a u64 draw v to the f64 (v >> 11) * 2^-53 (Standard distribution); the model's skip for a draw is floor(ln(1-r)/ln(1-p)) saturating at i32::MAX".into(),
+        "the generator's draw -> skip map is MEASURED on the real undirected generator (n = 64) by bisection over the u64 draw, and each skip's probability under a uniform draw is compared with p(1-p)^k; the directed generator is assumed to turn a draw into a skip the same way (its traces are dictated with the measured draws, so a different map shows up as a conformance failure)".into(),
         "distribution claims are decided on the chain (exact), not by sampling; p = NaN is not asserted".into(),
     ];
     out
